@@ -19,4 +19,4 @@ for name, f in RULES.items():
         if o.status == "violation" and not any(known_match(p, o, known) for p in o.props):
             print("  VIOL ", o.text()[:260])
 PY
-cd /repo && git checkout -q -- .
+cd /repo && git checkout -q -- . && git clean -fdq -- photon_weave
